@@ -216,6 +216,9 @@ func responsesOf(log []simdoh.Entry) []respRec {
 type observation struct {
 	key    string
 	values []string
+	// derived: addresses of a service target - a name the call can only have
+	// learnt from the HTTPS answer, so they were looked up after it
+	derived bool
 }
 
 type callRec struct {
@@ -251,7 +254,7 @@ func observe(names []SeqName, i int, r ech.ResolveResult) []observation {
 	sort.Strings(v6)
 	sort.Strings(hs)
 	host := names[owner].Host
-	obs := []observation{{keyOf(names[owner].httpsOwner(), simdoh.TypeHTTPS), hs}, {keyOf(host, simdoh.TypeA), v4}, {keyOf(host, simdoh.TypeAAAA), v6}}
+	obs := []observation{{keyOf(names[owner].httpsOwner(), simdoh.TypeHTTPS), hs, false}, {keyOf(host, simdoh.TypeA), v4, false}, {keyOf(host, simdoh.TypeAAAA), v6, false}}
 	if names[i].Shape == "alias" {
 		// the alias record itself is not visible in the result
 	}
@@ -274,10 +277,10 @@ func observe(names []SeqName, i int, r ech.ResolveResult) []observation {
 		// an empty half is not told apart from a failed lookup: only what
 		// is there is attributed
 		if len(a4) > 0 {
-			obs = append(obs, observation{keyOf(t, simdoh.TypeA), a4})
+			obs = append(obs, observation{keyOf(t, simdoh.TypeA), a4, true})
 		}
 		if len(a6) > 0 {
-			obs = append(obs, observation{keyOf(t, simdoh.TypeAAAA), a6})
+			obs = append(obs, observation{keyOf(t, simdoh.TypeAAAA), a6, true})
 		}
 	}
 	return obs
@@ -356,6 +359,21 @@ func judgeHistory(res *core.Result, prop string, calls []callRec, resps []respRe
 				continue
 			}
 			fresh := false
+			// The lookup happened somewhere between the start and the end of the
+			// call: the start is the reference (never flags an answer that was
+			// fresh when it was looked up). For the addresses of a service target
+			// the reference is later: the target's name comes out of the HTTPS
+			// answer, so when that answer arrived from upstream during this call
+			// the target was looked up after it.
+			ref := c.t0
+			if sequential && o.derived {
+				for i := range resps {
+					if h := &resps[i]; h.tick > c.c0 && h.tick < c.c1 && !h.failed && strings.HasSuffix(h.key, "/HTTPS") && h.done > ref {
+						ref = h.done
+						res.Probe("target_lookup_after_slow_https")
+					}
+				}
+			}
 			for _, ri := range cands {
 				r := &resps[ri]
 				if r.tick > c.c0 { // received during this very call
@@ -365,7 +383,7 @@ func judgeHistory(res *core.Result, prop string, calls []callRec, resps []respRe
 				// the lookup happened somewhere between the start and the
 				// end of the call: the start is used (never flags an answer
 				// that was fresh when it was looked up)
-				age := (c.t0 - r.done).Seconds()
+				age := (ref - r.done).Seconds()
 				limit := r.minTTL
 				if math.IsInf(limit, 1) {
 					limit = emptyAnswerKeep
@@ -382,7 +400,7 @@ func judgeHistory(res *core.Result, prop string, calls []callRec, resps []respRe
 				continue
 			}
 			r := &resps[cands[len(cands)-1]]
-			age := c.t0 - r.done
+			age := ref - r.done
 			site := "answer served beyond the smallest TTL of its response"
 			switch {
 			case len(r.values) == 0 && r.nAns > 0:
@@ -521,7 +539,7 @@ func genC16(seed uint64, idx int) *Plan {
 			p.Names[i].Port = 8443
 		}
 	}
-	p.LatencyUs = core.Pick(r, []int{1, 500, 20000})
+	p.LatencyUs = core.Pick(r, []int{1, 500, 20000, 20000, 1500000, 4000000})
 	p.CacheSize = core.Pick(r, []int{-1, -1, -1, 128, 128, 8, 2, 0})
 	lat := time.Duration(p.LatencyUs) * time.Microsecond
 	var ttls []int64
